@@ -1,5 +1,5 @@
 (** C01 -- Every sent request is concluded exactly once, at its own caller. *)
-From Verif Require Import Base.Prelude M1.Client M1.ClientProofs M1.ClientOwn.
+From Verif Require Import Base.Prelude M1.Client M1.ClientProofs M1.ClientOwn M1.ClientOnce.
 From Verif Require M1.Server M1.ServerInv M1.ServerOwn.
 
 (** Client endpoint (charge point / charging station), OCPP-J layer, every schedule:
@@ -17,6 +17,20 @@ Print Assumptions C01_client_accepted_is_concluded_plus_queued.
 Theorem C01_client_own_caller : forall c t ls, Forall wf_lab ls -> Forall own (tr (run ls (init c t))).
 Proof. exact own_caller_S1. Qed.
 Print Assumptions C01_client_own_caller.
+
+(** EVERY schedule, the WHOLE history (any number of sessions, disconnections, timeouts, failed writes): if the ids handed to
+    the send API are pairwise distinct, no request is concluded twice by the OCPP-J layer *)
+Theorem C01_client_concluded_at_most_once : forall c t ls, Forall wf_lab ls -> NoDup (send_ids ls) ->
+  NoDup (conc_all (tr (run ls (init c t)))).
+Proof. exact concluded_at_most_once_S1. Qed.
+Print Assumptions C01_client_concluded_at_most_once.
+
+Theorem C01_client_at_most_once_nonvacuous :
+  let ls := [Start; Send 1 true; Send 2 true; PumpReq; PumpReq; Expire; PumpTimer; PumpReady; Reply 2 0; Stop; PumpStop; Start;
+             Send 3 true; PumpReq; NetFail true; Send 4 true; Reply 3 0; PumpReq; PumpReady] in
+  Forall wf_lab ls /\ NoDup (send_ids ls) /\ conc_all (tr (run ls (init 0 0))) = [4; 3; 2; 1].
+Proof. exact once_demo. Qed.
+Print Assumptions C01_client_at_most_once_nonvacuous.
 
 (** once Stop has been called no conclusion is delivered until the next Start, whatever is waiting (repair F36) *)
 Theorem C01_client_nothing_delivered_while_stopped : forall s, stopSig s = true -> step Deliver s = s.
